@@ -38,3 +38,5 @@ fields("BinaryVariable", n_vars="int")
 from pyvc.state import FIELD_INVARIANTS
 FIELD_INVARIANTS["space_dimension"] = lambda z: z >= 0
 fields("MultiVariable", _children="list[Variable]")
+fields("Bee", trials="int")
+fields("Bat", loudness="float", pulse_rate="float", velocity="list[val]")
